@@ -41,9 +41,12 @@ var intHashers = []fp.Hashable[int]{
 	hasherT[int]{"mul", intEq, func(k int) uint32 { return uint32(k) * 2654435761 }},
 	hasherT[int]{"deep", intEq, func(k int) uint32 { return (uint32(k) % 3 << 30) | (uint32(k) / 3 % 2 << 25) | (uint32(k) / 6 % 40) }},
 	hasherT[int]{"mod9", intEq, func(k int) uint32 { return uint32(k%9) * 0x08421084 }},
+	hasherT[int]{"ones", intEq, func(k int) uint32 { return uint32(0xFFFFFFFF) << uint(k%33) }},
+	hasherT[int]{"bit", intEq, func(k int) uint32 { return uint32(1) << uint(k%32) }},
+	hasherT[int]{"frag31", intEq, func(k int) uint32 { return (uint32(0x1F) << (5 * uint(k%6))) | uint32(k/6%4) | uint32(k/24%3)<<30 }},
 	nil, // hash.Number[int]() placed at init
 }
-var intHasherNames = []string{"identity", "low5", "const", "high5", "pairs", "mul", "deep", "mod9", "hash.Number"}
+var intHasherNames = []string{"identity", "low5", "const", "high5", "pairs", "mul", "deep", "mod9", "ones", "bit", "frag31", "hash.Number"}
 
 var strHashers = []fp.Hashable[string]{
 	hash.String,
@@ -106,6 +109,7 @@ type hist[K any] struct {
 	idx      int
 	r        *rand.Rand
 	h        fp.Hashable[K] // nil for zero-value histories
+	alt      fp.Hashable[K] // another lawful hasher with the same Eqv (arguments of set operations)
 	hname    string
 	eqv      func(a, b K) bool
 	universe []K
@@ -303,6 +307,32 @@ func (h *hist[K]) keyFrom(md *model[K], present bool) K {
 type mapVersion[K any] struct {
 	m  fp.Map[K, int]
 	md *model[K]
+	it fp.Iterator[fp.Tuple2[K, int]] // iterator created when the version was remembered, drained later
+}
+
+// drainHeld drains an iterator that was created before later updates were applied to newer
+// versions: it must still yield exactly the remembered version's entries.
+func (h *hist[K]) drainHeld(v mapVersion[K]) {
+	if h.failed {
+		return
+	}
+	seen := make([]bool, len(v.md.es))
+	n := 0
+	it := v.it
+	for it.HasNext() {
+		t := it.Next()
+		n++
+		i := v.md.idx(t.I1)
+		if n > len(v.md.es)+1 || i < 0 || seen[i] || v.md.es[i].v != t.I2 {
+			h.fail("Map.Iterator(held across later updates)/iterator", fmt.Sprintf("held iterator yields (%v,%v): absent, twice, or stale value", t.I1, t.I2))
+			return
+		}
+		seen[i] = true
+	}
+	if n != len(v.md.es) {
+		h.fail("Map.Iterator(held across later updates)/iterator", fmt.Sprintf("held iterator yields %d entries, the version has %d", n, len(v.md.es)))
+	}
+	h.w.Add("iterators_held_across_updates_drained", 1)
 }
 
 func runMapHistory[K any](h *hist[K], nops int, zero bool) {
@@ -496,13 +526,24 @@ func runMapHistory[K any](h *hist[K], nops int, zero bool) {
 			// branch: continue from an older version (persistence is C04; here it only
 			// diversifies the shapes reached)
 			if len(versions) > 0 && r.IntN(2) == 0 {
-				v := versions[r.IntN(len(versions))]
+				vi := r.IntN(len(versions))
+				v := versions[vi]
+				h.drainHeld(v)
+				versions[vi].it = v.m.Iterator()
 				m, md = v.m, v.md.clone()
 				h.logOp("back-to-older-version")
 				h.havePrev = false
+			} else if r.IntN(3) == 0 {
+				site = recv + ".Concat(self)"
+				w.Site(site)
+				h.logOp("Concat(self)")
+				m = m.Concat(m)
+				w.Hit(site)
+				h.checkMap(site, m, md, nil, true)
 			} else {
-				versions = append(versions, mapVersion[K]{m, md.clone()})
+				versions = append(versions, mapVersion[K]{m, md.clone(), m.Iterator()})
 				if len(versions) > 4 {
+					h.drainHeld(versions[0])
 					versions = versions[1:]
 				}
 				h.logOp("remember-version")
@@ -513,6 +554,9 @@ func runMapHistory[K any](h *hist[K], nops int, zero bool) {
 		w.Add("ops", 1)
 		full := h.fullEvery <= 1 || step%h.fullEvery == 0 || step == nops-1
 		h.checkMap(site, m, md, touched, full)
+	}
+	for _, v := range versions {
+		h.drainHeld(v)
 	}
 	if !h.failed {
 		h.checkMap("final", m, md, nil, true)
@@ -717,7 +761,27 @@ func runSetHistory[K any](h *hist[K], nops int, zero bool) {
 				}
 				return o, om, fmt.Sprintf("zero.Incl%v", ks)
 			}
+			if h.alt != nil && r.IntN(3) == 0 {
+				w.Add("set_ops.argument_built_with_another_hasher", 1)
+				return immutable.Set(h.alt, ks...), om, fmt.Sprintf("Set(other-hasher)%v", ks)
+			}
 			return immutable.Set(h.h, ks...), om, fmt.Sprintf("Set%v", ks)
+		}
+		if r.IntN(40) == 0 {
+			// self-operations: the same value as receiver and argument
+			site = recv + ".self-ops"
+			w.Site(site)
+			h.logOp("self-ops")
+			if !s.SubsetOf(s) {
+				h.fail(site, "s.SubsetOf(s) is false")
+			}
+			if d := s.Diff(s); d.Size() != 0 || d.NonEmpty() || d.Iterator().HasNext() {
+				h.fail(site, fmt.Sprintf("s.Diff(s) has %d elements", d.Size()))
+			}
+			h.checkSet(site+"/Intersect", s.Intersect(s), md, nil, true)
+			h.checkSet(site+"/Concat", s.Concat(s), md, nil, true)
+			w.Hit(site)
+			continue
 		}
 		switch {
 		case op < pIns:
@@ -911,8 +975,9 @@ func runCase(w *vrt.W, i int) {
 			uni[k] = off + k*stride
 		}
 		h := &hist[int]{w: w, idx: i, r: r, h: intHashers[hi], hname: intHasherNames[hi], eqv: intEq, universe: uni, fullEvery: fullEvery}
+		h.alt = intHashers[(hi+1+r.IntN(len(intHashers)-1))%len(intHashers)]
 		if zero {
-			h.h, h.hname = nil, "zero-value(==)"
+			h.h, h.hname, h.alt = nil, "zero-value(==)", nil
 		}
 		w.Begin(i, "history")
 		w.Guard(i, h.witness, func() {
@@ -962,14 +1027,14 @@ func main() {
 				runCase(w, i)
 			}
 		},
-		Rule: "case = PRNG history over a key universe of 4/40/400/4000 keys with one of 9 int hashers (identity, low-5-bit, constant, high-5-bit, pair-colliding, multiplicative, deep-colliding, mod9-spread, hash.Number) or 3 string hashers (hash.String, two case-insensitive Eqv hashers), started from one of immutable.Map/Set, builders, seq|iterator|list.ToMap/ToSet, Concat or the zero value, followed by Updated/Removed/UpdatedWith/Concat (maps) or Incl/Excl/Concat/Diff/Intersect/SubsetOf (sets) in grow/mixed/shrink phases with returns to older versions; after every operation Size/IsEmpty/Get/Contains (touched + sampled keys, or the whole universe), periodically the Iterator multiset, and the trie walker are compared with a slice-of-pairs reference that uses the hasher's own Eqv. distinct_nontrivial counts distinct operation-sequence fingerprints of histories that contain a removal AND in which a node-kind transition (array->branch, bitmap<->hash-array, value<->collision) was observed by the census.",
+		Rule: "case = PRNG history over a key universe of 4/40/400/4000 keys with one of 12 int hashers (identity, low-5-bit, constant, high-5-bit, pair-colliding, multiplicative, deep-colliding, mod9-spread, all-ones-shifted, single-bit, fragment-31 patterns, hash.Number) or 3 string hashers (hash.String, two case-insensitive Eqv hashers), started from one of immutable.Map/Set, builders, seq|iterator|list.ToMap/ToSet, Concat or the zero value, followed by Updated/Removed/UpdatedWith/Concat (maps) or Incl/Excl/Concat/Diff/Intersect/SubsetOf (sets) in grow/mixed/shrink phases with returns to older versions, self-operations (m.Concat(m), s.Diff(s)…), set-operation arguments built with another lawful hasher, and iterators created on a version and drained only after later versions were derived; after every operation Size/IsEmpty/Get/Contains (touched + sampled keys, or the whole universe), periodically the Iterator multiset, and the trie walker are compared with a slice-of-pairs reference that uses the hasher's own Eqv. distinct_nontrivial counts distinct operation-sequence fingerprints of histories that contain a removal AND in which a node-kind transition (array->branch, bitmap<->hash-array, value<->collision) was observed by the census.",
 		Assumptions: []string{
 			"hashers used are lawful (Hash agrees with Eqv) and deterministic",
 			"values explored are PRNG-sampled histories, not all histories",
 			"zero-value fp.Map/fp.Set histories use ==-comparable keys (the zero value has no hasher)",
 		},
 		Floors: func(tier string) map[string]int64 {
-			return map[string]int64{"nodes.collision": 1, "nodes.hasharray": 1, "trans.bitmap_to_hasharray": 1, "trans.hasharray_to_bitmap": 1, "trans.collision_to_value": 1, "trans.array_to_branch": 1, "walker.runs": 1000, "histories.zero_value": 5}
+			return map[string]int64{"nodes.collision": 1, "nodes.hasharray": 1, "trans.bitmap_to_hasharray": 1, "trans.hasharray_to_bitmap": 1, "trans.collision_to_value": 1, "trans.array_to_branch": 1, "walker.runs": 1000, "histories.zero_value": 5, "iterators_held_across_updates_drained": 500, "set_ops.argument_built_with_another_hasher": 200, "hit.Set.self-ops": 50, "hit.Map.Concat(self)": 50}
 		},
 		Finish: func(tier string, m *vrt.Merged, cov map[string]any) {
 			names := []string{}
